@@ -6,35 +6,49 @@ Ent == {"kA", "kB", "kC"}
 Algs == {"sha1", "sha256"}
 MaxWire == 3
 
+KeyName(e, g) == IF g = 0 THEN e ELSE (IF e = "kA" THEN "kA2" ELSE IF e = "kB" THEN "kB2" ELSE "kC2")
+Certs == {KeyName(e, g) : e \in Ent, g \in 0..1}
+
 VARIABLES
+  \* @type: Str -> Int;
+  gen,
+  \* @type: Str -> Int;
+  loaded,
   \* @type: Str -> Str;
   slot,
   \* @type: Str -> Str;
   held,
-  \* @type: Seq({by: Str, alg: Str, key: Str});
+  \* @type: Seq({by: Str, own: Str, alg: Str, key: Str});
   wire
 
-Init == /\ slot = [a \in Algs |-> "nokey"]
+Init == /\ gen = [e \in Ent |-> 0] /\ loaded = [e \in Ent |-> 0]
+        /\ slot = [a \in Algs |-> "nokey"]
         /\ held = [e \in Ent |-> "none"]
         /\ wire = <<>>
 
-Obtain(e, a) == /\ held' = [held EXCEPT ![e] = a] /\ UNCHANGED <<slot, wire>>
+Obtain(e, a) == /\ held' = [held EXCEPT ![e] = a] /\ UNCHANGED <<slot, wire, gen, loaded>>
+\* key roll-over in place, entity rebuilt from its configuration (repaired design: no key cache)
+Rekey(e) == /\ gen[e] < 1 /\ gen' = [gen EXCEPT ![e] = 1] /\ loaded' = [loaded EXCEPT ![e] = 1]
+            /\ held' = [held EXCEPT ![e] = "none"] /\ UNCHANGED <<slot, wire>>
 Sign(e) == /\ held[e] # "none" /\ Len(wire) < MaxWire
-           /\ wire' = Append(wire, [by |-> e, alg |-> held[e], key |-> e])
-           /\ UNCHANGED <<slot, held>>
+           /\ wire' = Append(wire, [by |-> e, own |-> KeyName(e, gen[e]), alg |-> held[e], key |-> KeyName(e, loaded[e])])
+           /\ UNCHANGED <<slot, held, gen, loaded>>
 SignNow(e, a) == /\ Len(wire) < MaxWire
-                 /\ wire' = Append(wire, [by |-> e, alg |-> a, key |-> e])
-                 /\ UNCHANGED <<slot, held>>
+                 /\ wire' = Append(wire, [by |-> e, own |-> KeyName(e, gen[e]), alg |-> a, key |-> KeyName(e, loaded[e])])
+                 /\ UNCHANGED <<slot, held, gen, loaded>>
 Next == \/ \E e \in Ent, a \in Algs : Obtain(e, a) \/ SignNow(e, a)
-        \/ \E e \in Ent : Sign(e)
+        \/ \E e \in Ent : Sign(e) \/ Rekey(e)
 
-KeyOwnership == \A i \in DOMAIN wire : wire[i].key = wire[i].by
-TypeInv == /\ slot \in [Algs -> Ent \cup {"nokey"}]
+KeyOwnership == \A i \in DOMAIN wire : wire[i].key = wire[i].own
+TypeInv == /\ gen \in [Ent -> 0..1] /\ loaded \in [Ent -> 0..1]
+           /\ \A e \in Ent : loaded[e] = gen[e]          \* the strengthening: an entity object always holds the key its configuration names
+           /\ slot \in [Algs -> Ent \cup {"nokey"}]
            /\ held \in [Ent -> Algs \cup {"none"}]
            /\ Len(wire) <= MaxWire
-           /\ \A i \in DOMAIN wire : wire[i].by \in Ent /\ wire[i].alg \in Algs /\ wire[i].key \in Ent
+           /\ \A i \in DOMAIN wire : wire[i].by \in Ent /\ wire[i].alg \in Algs /\ wire[i].key \in Certs /\ wire[i].own \in Certs
 IndInv == TypeInv /\ KeyOwnership
-IndInit == /\ slot \in [Algs -> Ent \cup {"nokey"}]
+IndInit == /\ gen \in [Ent -> 0..1] /\ loaded \in [Ent -> 0..1]
+           /\ slot \in [Algs -> Ent \cup {"nokey"}]
            /\ held \in [Ent -> Algs \cup {"none"}]
            /\ wire = Gen(3)
            /\ IndInv
